@@ -123,6 +123,9 @@ class ConcreteEx:
     def refuse(self, tag, **claims):
         return Refused(tag, claims)
 
+    def abstract_wide_arith(self, bits):
+        pass
+
     # stubs
     def stub(self, target, repl, owner=None, attr=None):
         """Replace `target` wherever btclib modules (and `owner`) hold a reference."""
@@ -208,5 +211,9 @@ def _install_explorer_api():
     def uf(self, name, outlen, injective=False):
         return UF(name, outlen, injective)
 
+    def abstract_wide_arith(self, bits):
+        core.ABSTRACT_BITS = bits
+
+    E.abstract_wide_arith = abstract_wide_arith
     E.bool, E.bytes, E.bytearray, E.str = bool_, bytes_, bytearray_, str_
     E.assume, E.concretize, E.refuse, E.stub, E.uf = assume, concretize_, refuse, stub, uf
